@@ -126,8 +126,12 @@ class NDAdapter(Adapter):
             elif action in ("Project", "ProjectRefused"):
                 (axes,) = args
                 names = o["h"].axis_names
-                if self.spelling % 2:
+                sp = self.spelling % 3
+                if sp == 1:
                     a = [names[i - 1] if 1 <= i <= len(names) else f"nope{i}" for i in axes]
+                elif sp == 2:
+                    # mixed: axes alternately by index and by name (so a duplicate may be spelled once each way)
+                    a = [(i - 1) if (n % 2 == 0 or not 1 <= i <= len(names)) else names[i - 1] for n, i in enumerate(axes)]
                 else:
                     a = [i - 1 for i in axes]
                 r = o["h"].projection(*a)
@@ -251,6 +255,13 @@ class NDAdapter(Adapter):
                 if got.shape != exp.shape or not np.array_equal(got, exp):
                     fail("bins", exp.tolist(), got.tolist())
                     break
+                # the edge representation is cached separately by the binning: it must describe the same bins
+                if consecutive(LL[a]) and len(LL[a]):
+                    want = np.concatenate([exp[:, 0], exp[-1:, 1]])
+                    e_ = np.asarray(x.numpy_bins if dim == 1 else x.binnings[a].numpy_bins)
+                    if e_.shape != want.shape or not np.array_equal(e_, want):
+                        fail("bins", want.tolist(), {"numpy_bins": e_.tolist()})
+                        break
         shape = tuple(len(L) for L in LL)
         den = rec.get("den", 1)
         exact = den & (den - 1) == 0
